@@ -369,6 +369,53 @@ func init() {
 				}
 			}
 		}
+		// message level: in every message made only of fixed-width text and scalars, each text field occupies exactly its N
+		// bytes at the pinned offset, padded or cut as the pinned schema says (scalars are not judged here)
+		for _, t := range schema.Types {
+			plainT := len(t.fieldOps()) > 0 && t.Frame == nil
+			total := 0
+			for _, op := range t.fieldOps() {
+				if op.K != "fixed" && op.K != "scalar" {
+					plainT = false
+				}
+				total += op.N + op.W
+			}
+			if !plainT {
+				continue
+			}
+			for rep := 0; rep < 3; rep++ {
+				v := g.msg(t.ID, false, 0)
+				if rep == 2 {
+					for k, op := range t.fieldOps() {
+						if op.K == "fixed" && op.N > 0 {
+							v.Fs[k] = &Val{K: 's', S: g.runes(1 + g.r.Intn(op.N))}
+						}
+					}
+				}
+				r := corrEnc(o, v, nil, g.mode())
+				if r.Class != "ok" {
+					o.violate(Violation{Property: "C13", Kind: "direct", What: "a message of fixed-width fields did not encode: " + r.Class + " " + r.PanicMsg, Case: "enc - " + v.String(), Key: "msgfail:" + t.QName()})
+					continue
+				}
+				if len(r.Appended) != total {
+					o.violate(Violation{Property: "C13", Kind: "direct", What: fmt.Sprintf("%s: %d bytes emitted, the fixed-width layout has %d", t.QName(), len(r.Appended), total),
+						Case: "enc - " + v.String(), Key: "msglen:" + t.QName()})
+					continue
+				}
+				off := 0
+				for k, op := range t.fieldOps() {
+					if op.K == "fixed" {
+						want := padOrCut(op.N, byte(op.Pad), op.Left, v.Fs[k].S)
+						if !bytes.Equal(r.Appended[off:off+op.N], want) {
+							o.violate(Violation{Property: "C13", Kind: "direct", What: fmt.Sprintf("%s.%s: the %d-byte field is not the value padded/cut as specified", t.QName(), t.Fields[k].Name, op.N),
+								Case: "enc - " + v.String(), Expected: hexOf(want), Observed: hexOf(r.Appended[off : off+op.N]), Key: "msgfield:" + t.QName()})
+							break
+						}
+					}
+					off += op.N + op.W
+				}
+			}
+		}
 		// lists of fixed text
 		for r := 0; r < rounds*4; r++ {
 			op := Op{K: "fixeds", CW: []int{1, 2, 4}[g.r.Intn(3)], N: g.r.Intn(12), Pad: pads[g.r.Intn(len(pads))], Left: g.r.Intn(2) == 0, E: g.endian()}
@@ -488,6 +535,36 @@ func init() {
 						Expected: fmt.Sprint(want), Observed: fmt.Sprint(got), Key: "stale:" + s.name})
 				}
 			}
+		}
+		// inputs just above 1 MiB (a chunked implementation may consume its argument) and the registry's name -> service
+		// mapping after removals and re-registrations (each name must still give ITS algorithm)
+		for _, s := range svcs {
+			data := make([]byte, 1<<20+1+g.r.Intn(1000))
+			g.r.Read(data)
+			one(s, data, BufMode{}, false)
+			one(s, data[:1<<20], BufMode{Consumed: 1}, false)
+		}
+		names := []string{"CRC16", "CRC32", "SSE_BIN", "SZSE_BIN"}
+		probe := []byte("123456789")
+		checkAll := func(when string) {
+			for _, s2 := range cksServices() {
+				if got, want := s2.calc(bytes.NewBuffer(probe)), refAlg(s2.name, probe); got != want {
+					o.violate(Violation{Property: "C14", Kind: "direct", What: "the service registered as " + s2.name + " does not compute " + s2.name + " " + when,
+						Case: "cks " + s2.name + " " + hexOf(probe), Expected: fmt.Sprint(want), Observed: fmt.Sprint(got), Key: "registry:" + s2.name})
+				}
+			}
+			if len(cksServices()) != 4 {
+				o.violate(Violation{Property: "C14", Kind: "direct", What: "a checksum service is missing or has the wrong result type " + when, Case: "codec.Get", Key: "registry-missing"})
+			}
+		}
+		for _, n := range names {
+			svc, ok := codec.Get(n)
+			if !ok {
+				continue
+			}
+			codec.Remove(n)
+			codec.Registry(svc)
+			checkAll("after " + n + " was removed and registered again")
 		}
 		// long runs of one byte (sums must stay in 0..255; 8,421,505 x 0xFF overflows an int32 accumulator)
 		reps := []int{1 << 16, 1 << 20, 8421505, 8421505 + 255}
